@@ -27,6 +27,18 @@ func c14R5(c *kit.Ctx, cm *c14Model, r5 *kit.Rule) {
 		o.Undecided("no loop over the window list in %s", f.Name)
 		return
 	}
+	if len(loops) == 1 {
+		for rs := range loops {
+			switch cover, why := c14LoopCovers(f, rs, c14RecvVar(f)); cover {
+			case "part":
+				o.Violation("witness: two windows, t only inside the one that is not looked at → %s: false is returned although a window contains t", why)
+				return
+			case "unknown":
+				o.Undecided("%s", why)
+				return
+			}
+		}
+	}
 	st := &kit.Std{F: f}
 	bf := &kit.BoolFlow{Std: st}
 	var bad []string
@@ -206,7 +218,7 @@ func c14R4(c *kit.Ctx, cm *c14Model, r4 *kit.Rule) {
 		f := ff.f
 		info := f.Info()
 		o := r4.Ob(f, nil, ff.name+" reads the start only", "the filter reads no other field of a window than its start, and decides each window by that window's own start (no value derived from another window's field meets a filter value in a branch condition)")
-		nStart := 0
+		nStart, nKept := 0, 0
 		var other []string
 		// the filter itself and the same-package helpers it hands a window to
 		bodies := []*kit.Func{f}
@@ -246,6 +258,11 @@ func c14R4(c *kit.Ctx, cm *c14Model, r4 *kit.Rule) {
 						} else {
 							other = append(other, fmt.Sprintf("`%s` at %s", b.Str(sel), b.At(sel)))
 						}
+					} else if ok && cm.wdCache != nil && fv == cm.wdCache {
+						// the weekday of the start kept with the window (judged by the
+						// obligation "weekday kept with the window")
+						nStart++
+						nKept++
 					}
 				}
 				return true
@@ -261,6 +278,8 @@ func c14R4(c *kit.Ctx, cm *c14Model, r4 *kit.Rule) {
 			o.Undecided("%s", strings.Join(fundec, "; "))
 		case nStart == 0:
 			o.Undecided("the filter reads no window field at all")
+		case nKept > 0:
+			o.OK("%d reads, all of the start field `%s` or of `%s`, the weekday of the start kept with the window", nStart, startF.Name(), cm.wdCache.Name())
 		default:
 			o.OK("%d reads, all of the start field `%s`", nStart, startF.Name())
 		}
@@ -285,7 +304,20 @@ func c14R4(c *kit.Ctx, cm *c14Model, r4 *kit.Rule) {
 			return false
 		}
 		isStartWeekday := func(e ast.Expr) bool {
-			call, ok := c14StripConv(info, cm.resolve(c14StripConv(info, e))).(*ast.CallExpr)
+			e = c14StripConv(info, cm.resolve(c14StripConv(info, e)))
+			// `w := <elem>.weekday` with a single definition
+			if id, isId := e.(*ast.Ident); isId && cm.wdCache != nil {
+				if rhs, _, _, n := c13SingleDef(f, kit.ObjOf(info, id)); n == 1 && rhs != nil {
+					e = c14StripConv(info, rhs)
+				}
+			}
+			// <elem>.weekday: the weekday of the window's start kept with the
+			// window; that it is the start's weekday is the obligation "weekday
+			// kept with the window" of the predicate
+			if base, fv, isSel := kit.FieldSel(info, e); isSel && cm.wdCache != nil && fv == cm.wdCache {
+				return cm.m.isElemOf(f, base, cm.tr)
+			}
+			call, ok := e.(*ast.CallExpr)
 			if !ok {
 				return false
 			}
@@ -516,6 +548,15 @@ func c14FilterRun(c *kit.Ctx, cm *c14Model, flt *c14Filter, fparam *types.Var, r
 	var outerRS *ast.RangeStmt
 	for rs := range outer {
 		outerRS = rs
+	}
+	// every window is decided: the loop ranges over the whole list
+	switch cover, why := c14LoopCovers(f, outerRS, recv); cover {
+	case "part":
+		o.Violation("witness: schedule 20:00–06:00 (two windows), both starts allowed by the filter → %s: the window outside that part is never decided and is missing from the kept list", why)
+		return o
+	case "unknown":
+		o.Undecided("%s", why)
+		return o
 	}
 	within := func(n ast.Node, rs *ast.RangeStmt) bool { return rs.Body.Pos() <= n.Pos() && n.End() <= rs.Body.End() }
 	for rs := range inner {
@@ -802,6 +843,11 @@ func c14FilterRun(c *kit.Ctx, cm *c14Model, flt *c14Filter, fparam *types.Var, r
 				if derived(id) {
 					return true
 				}
+				// the window list or the kept list (an uninterpreted test on them
+				// may guard an early end of the window loop)
+				if v, isVar := ob.(*types.Var); isVar && (v == recv || c14IsWindowList(cm, v.Type())) {
+					return true
+				}
 			}
 			return cm.m.isElemOf(f, x, cm.tr)
 		}
@@ -826,6 +872,22 @@ func c14FilterRun(c *kit.Ctx, cm *c14Model, flt *c14Filter, fparam *types.Var, r
 			}
 			nex++
 			stored := ex.State.Get("stored") == "T"
+			// every window is decided: a pass over a window ends at the head of the
+			// window loop, where the next window is fetched.  A successful exit
+			// reached from inside a pass (break / goto out of the window loop,
+			// return from its body) leaves the windows behind the current one
+			// unexamined; they are missing from the kept list.
+			if empty == "F" && ex.State.Has("ito") && ex.State.Get("passed") != "T" {
+				how := "dropped although a filter value matches its start"
+				if !stored {
+					how = "never decided"
+				}
+				by := ""
+				if lv := c14LoopLeavers(f, outerRS); len(lv) > 0 {
+					by = " by " + strings.Join(lv, " / ")
+				}
+				addV("witness: schedule 20:00–06:00 (two windows: the one starting on t's day and the wrapped one that started the day before), both starts allowed by the filter → the loop over the windows is left%s during the pass over the first window (successful exit %s reached without returning to `range %s` at %s): the second window is %s", by, c14ExitAt(f, ex), f.Str(outerRS.X), f.At(outerRS), how)
+			}
 			switch {
 			case empty == "T" && stored:
 				addV("witness: empty filter (nothing selected), one window → the receiver's list is replaced (by the kept list, which is empty) at exit %s", c14ExitAt(f, ex))
@@ -852,6 +914,116 @@ func c14FilterRun(c *kit.Ctx, cm *c14Model, flt *c14Filter, fparam *types.Var, r
 		o.OK("empty/non-empty filter × lazily valued comparisons per filter value: kept iff matched, list replaced")
 	}
 	return o
+}
+
+func c14IsWindowList(cm *c14Model, t types.Type) bool {
+	if p, ok := t.(*types.Pointer); ok {
+		t = p.Elem()
+	}
+	el := ruSliceElem(t)
+	return el != nil && types.Identical(el, cm.tr)
+}
+
+// c14LoopCovers judges the operand of a loop over the window list when it is
+// a slice expression of the receiver's list: "all" for x[:], x[0:], x[:len(x)];
+// "part" when a constant bound cuts a list of two windows (lower bound > 0,
+// upper bound < 2); "unknown" for other bounds.  Operands that are not slice
+// expressions are left to the other clauses ("").
+func c14LoopCovers(f *kit.Func, rs *ast.RangeStmt, recv *types.Var) (string, string) {
+	info := f.Info()
+	se, ok := ast.Unparen(rs.X).(*ast.SliceExpr)
+	if !ok || recv == nil {
+		return "", ""
+	}
+	base := ast.Unparen(se.X)
+	if st, isStar := base.(*ast.StarExpr); isStar {
+		base = ast.Unparen(st.X)
+	}
+	if kit.ObjOf(info, base) != types.Object(recv) {
+		return "", ""
+	}
+	desc := fmt.Sprintf("the loop at %s ranges over `%s`", f.At(rs), f.Str(rs.X))
+	verdict := "all"
+	if se.Low != nil {
+		switch k, isC := kit.ConstInt(info, se.Low); {
+		case isC && k == 0:
+		case isC:
+			return "part", desc + ", which leaves out the first window(s)"
+		default:
+			verdict = "unknown"
+		}
+	}
+	if se.High != nil {
+		isLen := false
+		if call, isCall := ast.Unparen(se.High).(*ast.CallExpr); isCall && len(call.Args) == 1 {
+			if b, isB := kit.Callee(info, call).(*types.Builtin); isB && b.Name() == "len" {
+				arg := ast.Unparen(call.Args[0])
+				if st, isStar := arg.(*ast.StarExpr); isStar {
+					arg = ast.Unparen(st.X)
+				}
+				isLen = kit.ObjOf(info, arg) == types.Object(recv)
+			}
+		}
+		switch k, isC := kit.ConstInt(info, se.High); {
+		case isLen:
+		case isC && k < 2:
+			return "part", desc + ", which leaves out the wrapped window"
+		default:
+			verdict = "unknown"
+		}
+	}
+	if se.Max != nil {
+		verdict = "unknown"
+	}
+	if verdict == "unknown" {
+		return "unknown", desc + "; whether that is the whole list is not derivable"
+	}
+	return "all", ""
+}
+
+// c14LoopLeavers names, for a message, the statements in the body of rs that
+// leave the loop without an error: `break` aimed at rs (by its label, or
+// unlabelled and not inside a nested loop / switch / select), `goto`, and
+// returns that hand back no error.  The decision itself is taken on the flow
+// (a successful exit reached from inside a pass), not on this list.
+func c14LoopLeavers(f *kit.Func, rs *ast.RangeStmt) []string {
+	info := f.Info()
+	label := ""
+	ast.Inspect(f.Body, func(n ast.Node) bool {
+		if ls, ok := n.(*ast.LabeledStmt); ok && ls.Stmt == ast.Stmt(rs) {
+			label = ls.Label.Name
+		}
+		return true
+	})
+	var out []string
+	var walk func(n ast.Node, nested bool)
+	walk = func(n ast.Node, nested bool) {
+		ast.Inspect(n, func(x ast.Node) bool {
+			switch y := x.(type) {
+			case *ast.FuncLit:
+				return false
+			case *ast.ForStmt, *ast.RangeStmt, *ast.SwitchStmt, *ast.TypeSwitchStmt, *ast.SelectStmt:
+				if x != n {
+					walk(x, true)
+					return false
+				}
+			case *ast.BranchStmt:
+				switch {
+				case y.Tok == token.BREAK && y.Label == nil && !nested,
+					y.Tok == token.BREAK && y.Label != nil && y.Label.Name == label,
+					y.Tok == token.GOTO:
+					out = append(out, fmt.Sprintf("`%s` at %s", f.Str(y), f.At(y)))
+				}
+			case *ast.ReturnStmt:
+				if len(y.Results) == 0 || kit.IsNilIdent(info, y.Results[len(y.Results)-1]) {
+					out = append(out, fmt.Sprintf("`%s` at %s", f.Str(y), f.At(y)))
+				}
+			}
+			return true
+		})
+	}
+	walk(rs.Body, false)
+	return out
 }
 
 func c14ExitAt(f *kit.Func, ex kit.Exit) string {
